@@ -212,7 +212,16 @@ def observe_problem(pr):
         out.append("title:" + canon(pr.title.title if hasattr(pr.title, "title") else str(pr.title)))
     except Exception as e:
         out.append("title!" + exc_name(e))
+    try:
+        out.append("mode:" + canon(sorted(str(p_) for p_ in pr.mode.particles)))
+    except Exception as e:
+        out.append("mode!" + exc_name(e))
     for c in pr.cells:
+        try:
+            if isinstance(c.parameters, dict):
+                out.append("c%d par=%s" % (c.number, canon(sorted(map(str, c.parameters)))))
+        except Exception as e:
+            out.append("c%d par!%s" % (c.number, exc_name(e)))
         try:
             mat = c.material.number if c.material is not None else None
             dens = None
@@ -594,6 +603,143 @@ def allowed_writes(seen):
 
 
 # ----------------------------------------------------------------------------------------------
+# API calls that take containers: the SAME argument object is given to A and to another problem
+# ----------------------------------------------------------------------------------------------
+def _particles(names):
+    from montepy.particle import Particle
+    return {Particle(n.upper()) for n in names}
+
+
+def arg_make(api, spec):
+    """the caller's container, built from a JSON-able spec"""
+    import numpy as np
+    if api == "mode":
+        return _particles(spec)
+    if api in ("displacement", "rotation"):
+        return np.array([float(x) for x in spec])
+    if api == "cell_parameters":
+        return dict(spec)
+    return list(spec)
+
+
+def _first(it, pred=lambda x: True):
+    for x in it:
+        if pred(x):
+            return x
+    return None
+
+
+def arg_apply(api, pr, obj):
+    """hand the caller's container to the problem through its public API; 'skipped' when the problem has no target"""
+    import montepy
+    if api == "mode":
+        pr.set_mode(obj)
+        return "ok"
+    if api == "surface_constants":
+        s = _first(pr.surfaces, lambda x: len(x.surface_constants) == len(obj))
+        if s is None:
+            return "skipped"
+        s.surface_constants = obj
+        return "ok"
+    if api == "coordinates":
+        s = _first(pr.surfaces, lambda x: type(x).__name__ == "CylinderParAxis")
+        if s is None:
+            return "skipped"
+        s.coordinates = obj
+        return "ok"
+    if api in ("displacement", "rotation"):
+        t = _first(pr.transforms)
+        if t is None:
+            return "skipped"
+        if api == "displacement":
+            t.displacement_vector = obj
+        else:
+            t.rotation_matrix = obj
+        return "ok"
+    if api == "tsl":
+        m = _first(pr.materials, lambda x: x.thermal_scattering is not None)
+        if m is None:
+            return "skipped"
+        m.thermal_scattering.thermal_scattering_laws = obj
+        return "ok"
+    if api == "cell_parameters":
+        c = _first(pr.cells)
+        c.parameters = obj
+        return "ok"
+    raise ValueError(api)
+
+
+def arg_inplace(api, pr):
+    """the other problem edits what it was given, in place, through its own API"""
+    from montepy.particle import Particle
+    if api == "mode":
+        for part in (Particle.PHOTON, Particle.ELECTRON, Particle.NEUTRON, Particle.PROTON):
+            if part not in pr.mode.particles:
+                pr.mode.add(part)
+                return "ok"
+        return "skipped"
+    if api == "surface_constants":
+        s = _first(pr.surfaces, lambda x: len(x.surface_constants) > 0)
+        if s is None:
+            return "skipped"
+        s.surface_constants[0] = 77.25
+        return "ok"
+    if api == "coordinates":
+        s = _first(pr.surfaces, lambda x: type(x).__name__ == "CylinderParAxis")
+        if s is None:
+            return "skipped"
+        s.coordinates[0] = 3.125
+        return "ok"
+    if api in ("displacement", "rotation"):
+        t = _first(pr.transforms)
+        if t is None:
+            return "skipped"
+        if api == "displacement":
+            t.displacement_vector[0] = 41.5
+        else:
+            t.rotation_matrix[0] = 0.25
+        return "ok"
+    if api == "tsl":
+        m = _first(pr.materials, lambda x: x.thermal_scattering is not None)
+        if m is None:
+            return "skipped"
+        m.thermal_scattering.add_scattering_law("poly.01t")
+        return "ok"
+    if api == "cell_parameters":
+        c = _first(pr.cells)
+        c.parameters["C17"] = 1
+        return "ok"
+    raise ValueError(api)
+
+
+def arg_caller_mutates(api, obj):
+    """the caller changes its own container after the call"""
+    from montepy.particle import Particle
+    if api == "mode":
+        obj.add(Particle.ELECTRON if Particle.ELECTRON not in obj else Particle.PROTON)
+    elif api in ("displacement", "rotation"):
+        obj[0] = obj[0] + 0.5
+    elif api == "cell_parameters":
+        obj["C17x"] = 2
+    elif api == "tsl":
+        obj.append("grph.20t")
+    else:
+        obj[0] = obj[0] + 1.5
+    return "ok"
+
+
+ARG_SPECS = {
+    "mode": lambda rng, meta: sorted(rng.sample(meta["particles"], rng.randint(1, len(meta["particles"])))),
+    "surface_constants": lambda rng, meta: [rng.choice([2.5, 4.0, 7.75])] * rng.choice([1, 1, 3, 4]),
+    "coordinates": lambda rng, meta: [rng.choice([1.5, 2.0]), rng.choice([0.5, 3.0])],
+    "displacement": lambda rng, meta: [rng.choice([1.0, 2.5]), 0.0, rng.choice([-3.0, 4.0])],
+    "rotation": lambda rng, meta: [1.0, 0.0, 0.0, 0.0, 1.0, 0.0, 0.0, 0.0, 1.0],
+    "tsl": lambda rng, meta: [rng.choice(["lwtr.10t", "grph.20t"])],
+    "cell_parameters": lambda rng, meta: {},
+}
+
+
+# ----------------------------------------------------------------------------------------------
 # scenarios: a program on problem A, interleaved (or not) with operations on other things
 # ----------------------------------------------------------------------------------------------
 def sha(x):
@@ -614,6 +760,7 @@ class Scenario:
         self.spy = EntrySpy() if arm == "monitor" else None
         self.poisoned = set()
         self.last_bytes = None
+        self.args = {}
 
     # ---- one guarded operation
     def guarded(self, label, fn):
@@ -719,6 +866,11 @@ class Scenario:
                 ED.apply(hc, st["e"])
                 return sha(write_bytes(C, self.dir, "Acopy.i", st.get("version", (6, 2, 0))))
             return self.guarded("A.copyedit", f)
+        if k == "argset":
+            def f():
+                obj = self.args.setdefault(st["key"], arg_make(st["api"], st["spec"]))
+                return arg_apply(st["api"], pr, obj)
+            return self.guarded("A.argset:" + st["api"], f)
         if k == "copykeep":
             def f():
                 self.kept = (pickle.loads(pickle.dumps(pr)) if st.get("how") == "pickle" else copy.deepcopy(pr))
@@ -798,9 +950,21 @@ class Scenario:
                 self.slots[op["slot"]] = Slot(copy.deepcopy(self.A.pr))
                 return "ok"
             return self.guarded("N.copyA", f)
+        if k == "arg_caller":
+            obj = self.args.get(op["key"])
+            if obj is None:
+                return "noarg"
+            return self.guarded("N.arg_caller:" + op["api"], lambda: arg_caller_mutates(op["api"], obj))
         sl = self.slots.get(op.get("slot"))
         if sl is None:
             return "noslot"
+        if k == "argset":
+            def f():
+                obj = self.args.setdefault(op["key"], arg_make(op["api"], op["spec"]))
+                return arg_apply(op["api"], sl.pr, obj)
+            return self.guarded("N.argset:" + op["api"], f)
+        if k == "arg_inplace":
+            return self.guarded("N.arg_inplace:" + op["api"], lambda: arg_inplace(op["api"], sl.pr))
         if k == "edit":
             def f():
                 ok, _ = ED.apply(sl.h, op["e"])
@@ -889,10 +1053,45 @@ def corrupt(rng, text):
     return "\n".join(lines)
 
 
-def gen_problem_text(rng, wide=False, extras=True):
-    P = gen.gen_problem(rng, dict(max_cells=rng.choice([4, 6, 6, 12]), depth=rng.choice([1, 2, 3]), extras=extras))
+def add_long_comments(rng, text):
+    """over-long comments: `c` comment lines and `$` comments that fit in 128 columns (the file is read as MCNP 6.2)
+    but have to be wrapped when the problem is written for an 80-column version"""
+    lines = text.split("\n")
+    out = []
+    blanks = 0
+    started = False
+    for i, l in enumerate(lines):
+        if i == 0 or l.upper().startswith("MESSAGE") or (not started and not l.strip()):
+            out.append(l)
+            if l.strip() and not l.upper().startswith("MESSAGE") and (i == 0 or not lines[i - 1].strip()):
+                started = True
+            continue
+        if not l.strip():
+            blanks += 1
+            out.append(l)
+            continue
+        is_c = l.lstrip().lower().startswith("c ") or l.strip().lower() == "c"
+        first_col = l[:5].strip() != ""
+        if first_col and not is_c and rng.random() < 0.12 and blanks < 3:
+            words = " ".join("%s%02d" % (rng.choice(["word", "note", "tag"]), k) for k in range(rng.randint(11, 15)))
+            out.append(("c " + words)[:rng.randint(90, 124)])
+        if not is_c and "$" not in l and "&" not in l and rng.random() < 0.12 and len(l) < 70:
+            words = " ".join("%s%02d" % (rng.choice(["text", "rem", "x"]), k) for k in range(14))
+            l = (l + " $ " + words)[:rng.randint(95, 126)].rstrip()
+        out.append(l)
+    return "\n".join(out)
+
+
+def gen_problem_text(rng, wide=False, extras=True, long_comments=None):
+    P = gen.gen_problem(rng, dict(max_cells=rng.choice([4, 6, 6, 12]), depth=rng.choice([1, 2, 3]), extras=extras,
+                                  message=False))
     L = gen.layout_opts(rng, wild=False, width=rng.choice([78, 78, 120]) if wide else 78)
-    return gen.render(rng, P, L), P["meta"]
+    text = gen.render(rng, P, L)
+    if long_comments is None:
+        long_comments = wide and rng.random() < 0.5
+    if long_comments:
+        text = add_long_comments(rng, text)
+    return text, P["meta"]
 
 
 def gen_case(rng, latch_props, latch_rate=0.15):
@@ -931,7 +1130,18 @@ def gen_case(rng, latch_props, latch_rate=0.15):
         steps.append({"s": "copycheck", "version": v})
     # reading = constructing the problem, then parsing it: sometimes with unrelated operations in between
     steps = ([{"s": "read"}] if rng.random() < 0.7 else [{"s": "construct"}, {"s": "parse"}]) + steps
-    if rng.random() < 0.5:
+    # a container argument that the caller also hands to another problem / keeps using
+    shared = None
+    if rng.random() < 0.3:
+        apis = [a for a in sorted(ARG_SPECS) if a not in ("displacement", "rotation") or meta["transforms"]]
+        if meta["transforms"] and rng.random() < 0.4:
+            apis = ["displacement", "rotation"]
+        api = rng.choice(apis)
+        shared = {"api": api, "key": "k0", "spec": ARG_SPECS[api](rng, meta)}
+        pos = rng.randint(len(steps) - len([x for x in steps if x["s"] not in ("read", "construct", "parse")]), len(steps))
+        steps.insert(pos, dict(shared, s="argset"))
+        shared["after_step"] = pos
+    if rng.random() < 0.5 or shared is not None:
         steps.append({"s": "observe"})
     steps.append({"s": "write", "version": list(rng.choice(VERSIONS))})
     if rng.random() < 0.3:
@@ -987,6 +1197,16 @@ def gen_case(rng, latch_props, latch_rate=0.15):
                 else:
                     c = rng.choice(["UnitHalfSpace", "HalfSpace"])
                     ops.append({"n": "genset", "prop": p, "self": c, "val": c})
+        if shared is not None and g > shared["after_step"] and rng.random() < 0.7:
+            slot = rng.randrange(len(ntexts))
+            r = rng.random()
+            if r < 0.45:
+                ops.append({"n": "argset", "slot": slot, "api": shared["api"], "key": shared["key"], "spec": shared["spec"]})
+                ops.append({"n": "arg_inplace", "slot": slot, "api": shared["api"]})
+            elif r < 0.7:
+                ops.append({"n": "argset", "slot": slot, "api": shared["api"], "key": shared["key"], "spec": shared["spec"]})
+            else:
+                ops.append({"n": "arg_caller", "api": shared["api"], "key": shared["key"]})
         if unread and (g == 0 or rng.random() < 0.5):
             k = unread.pop()
             ops.insert(0, {"n": "read", "slot": k, "text": ntexts[k][0]})
@@ -1289,6 +1509,89 @@ def latch_reproduces(prop, fresh=True):
 
 
 # ----------------------------------------------------------------------------------------------
+# aliasing of caller-supplied containers: the witnesses of the open findings, on the real code
+# ----------------------------------------------------------------------------------------------
+ALIAS_TEXT = """c17 alias probe
+1 1 -1.0 -1 2 imp:n=1 u=1
+2 0 1 -3 imp:n=1 fill=1
+3 0 3 imp:n=0
+
+1 1 px 0
+2 px 1
+3 so 5
+
+mode n
+m1 1001.80c 1.0 8016.80c 0.5
+tr1 0 0 1
+nps 10
+
+"""
+
+
+def alias_probe(name):
+    """two independently read problems A, B are given the SAME container; A edits it in place through its own API;
+    returns what B reports/writes before and after (differ = the defect reproduces)"""
+    import numpy as np
+    import montepy
+    d = child_tmp()
+    try:
+        A = read_text(d, "a.i", ALIAS_TEXT)
+        B = read_text(d, "b.i", ALIAS_TEXT)
+
+        def rep(pr):
+            return sha(write_bytes(pr, d, "o.i", (6, 2, 0)) + "\n".join(observe_problem(pr)))
+        if name == "transform":
+            v = np.array([1.0, 2.0, 3.0])
+            m = np.array([1.0, 0.0, 0.0, 0.0, 1.0, 0.0, 0.0, 0.0, 1.0])
+            A.transforms[1].displacement_vector = v
+            B.transforms[1].displacement_vector = v
+            A.transforms[1].rotation_matrix = m
+            B.transforms[1].rotation_matrix = m
+            b0 = rep(B)
+            A.transforms[1].displacement_vector[0] = 9.5
+            b1 = rep(B)
+            A.transforms[1].rotation_matrix[0] = 0.5
+            return {"before": b0, "after": b1, "after2": rep(B)}
+        if name == "cell_parameters":
+            dd = {}
+            A.cells[1].parameters = dd
+            B.cells[1].parameters = dd
+            b0 = rep(B)
+            A.cells[1].parameters["C17"] = 1
+            return {"before": b0, "after": rep(B)}
+        if name == "fill_universes":
+            fa, fb = A.cells[2].fill, B.cells[2].fill
+            arr = np.empty((1, 1, 1), dtype=object)
+            arr[0, 0, 0] = B.universes[1]
+            fa.multiple_universes = True
+            fb.multiple_universes = True
+            fa.universes = arr
+            fb.universes = arr
+            b0 = canon([u.number if u is not None else None for u in fb.universes.flatten()])
+            fa.universes[0, 0, 0] = None
+            return {"before": b0, "after": canon([u.number if u is not None else None for u in fb.universes.flatten()])}
+        if name == "collection_list":
+            from montepy.cells import Cells
+            objs = list(B.cells)
+            c1, c2 = Cells(objs), Cells(objs)
+            b0 = canon([c.number for c in c2])
+            c = montepy.Cell()
+            c.number = 99
+            c1.append(c)
+            return {"before": b0, "after": canon([x.number for x in c2])}
+        raise ValueError(name)
+    finally:
+        _cleanup(d)
+
+
+def alias_reproduces(name):
+    r = fork_map(alias_probe, [(name,)])[0]
+    if "__crash__" in r:
+        return False, r
+    return any(r[k] != r["before"] for k in r if k != "before"), r
+
+
+# ----------------------------------------------------------------------------------------------
 # the check
 # ----------------------------------------------------------------------------------------------
 def table_facts(res):
@@ -1296,6 +1599,8 @@ def table_facts(res):
     own_dirty = [r for r in rows if r.status == "SDirty" and not r.site.extra.get("ext")]
     ext_dirty = [r for r in rows if r.status == "SDirty" and r.site.extra.get("ext")]
     latch = [r.site.extra["app"] for r in own_dirty if r.site.kind == "KClosure" and "make_prop" in r.site.owner.name]
+    alias = [r for r in own_dirty if r.site.kind == "KStoresArg"]
+    own_dirty = [r for r in own_dirty if r.site.kind != "KStoresArg"]
     other = [r for r in own_dirty if not (r.site.kind == "KClosure" and "make_prop" in r.site.owner.name)]
     props = [(g["name"], g["owner"], g["latching"], g["types"], g["self_typed"]) for g in res.props]
     class_anc = {"bool": ["int"]}
@@ -1306,7 +1611,7 @@ def table_facts(res):
     for r in rows:
         kinds[r.site.kind] = kinds.get(r.site.kind, 0) + 1
         stat[r.status] = stat.get(r.status, 0) + 1
-    return {"latch": latch, "other_dirty": other, "ext_dirty": ext_dirty, "props": props, "class_anc": class_anc,
+    return {"alias": alias, "latch": latch, "other_dirty": other, "ext_dirty": ext_dirty, "props": props, "class_anc": class_anc,
             "kinds": kinds, "status": stat}
 
 
@@ -1381,7 +1686,7 @@ def replay(ctx, path):
     check_montepy_path()
     set_table()
     kind = case.get("kind") or c.get("kind")
-    if kind in ("setter-history", "latch"):
+    if kind in ("setter-history", "latch", "alias"):
         c = case
     bad = None
     if kind == "history":
@@ -1389,6 +1694,9 @@ def replay(ctx, path):
     elif kind == "copy-affected":
         r = fork_map(run_scenario, [(c, "base")])[0]
         bad = {"outcomes": r.get("outcomes")} if "COPY-CHANGED" in (r.get("outcomes") or []) or "__crash__" in r else None
+    elif kind == "alias":
+        ok_, d = alias_reproduces(case["probe"])
+        bad = d if ok_ else None
     elif kind == "read-residue":
         a, b = fork_map(real_readq, [(dict(c, residue_q=[], residue_log=0),), (c,)])
         bad = None if a.get("result") == b.get("result") else {"fresh": a, "with_residue": b}
@@ -1673,8 +1981,12 @@ def run(ctx):
                     "detail": {"diff": d, "poisoned": [TABLE.sites[k]["name"] for k in p.get("poisoned", [])][:12]}})
                 ctx.fail({"kind": "history", "arm": "poison", "case": c, "diff": d})
             else:
-                small = shrink_history(c, lambda cc: history_fails(cc) is not None) if len(ctx.violations) < 2 else c
-                ctx.fail({"kind": "history", "arm": "noisy", "case": small, "diff": history_fails(small) or d})
+                raw = {"kind": "history", "arm": "noisy", "case": c, "diff": d}
+                if ctx.attribute(raw):
+                    ctx.fail(raw)         # an open known finding explains it (confirmed by removal): no need to shrink
+                else:
+                    small = shrink_history(c, lambda cc: history_fails(cc) is not None) if len(ctx.violations) < 2 else c
+                    ctx.fail({"kind": "history", "arm": "noisy", "case": small, "diff": history_fails(small) or d})
             if len(ctx.violations) >= 4:
                 break
         if len(ctx.violations) >= 4:
@@ -1706,11 +2018,29 @@ def run(ctx):
     for prop in facts["latch"]:
         ok_, d = latch_reproduces(prop, fresh=(prop == "Surface.periodic_surface" or not quick))
         latch_now[prop] = ok_
+    alias_now = {}
     for fd in ctx.findings:
         if fd.get("status") != "open":
             continue
         props = fd.get("params", {}).get("props", [])
-        fd["_reproduced"] = any(latch_now.get(p) for p in props)
+        probe_name = fd.get("params", {}).get("probe")
+        if probe_name:
+            ok_, d = alias_reproduces(probe_name)
+            alias_now[probe_name] = ok_
+            fd["_reproduced"] = ok_
+        else:
+            fd["_reproduced"] = any(latch_now.get(p) for p in props)
+    # every API function the table reports as storing the caller's container needs an open finding
+    known_sites = set()
+    for fd in ctx.findings:
+        if fd.get("status") == "open":
+            known_sites |= set(fd.get("params", {}).get("sites", []))
+    for row in facts["alias"]:
+        ctx.count_case(("alias-site", row.site.name), nontrivial=True)
+        if row.site.name not in known_sites:
+            ctx.broken_obligations.append({"obligation": "no API function stores the caller's mutable container without a copy",
+                                           "detail": {"site": row.site.name, "how": row.site.extra.get("how"),
+                                                      "types": row.site.extra.get("types"), "line": row.site.lineno}})
     # a latch the table reports but that has no open finding is a violation of its own
     open_props = set()
     for fd in ctx.findings:
@@ -1722,7 +2052,8 @@ def run(ctx):
             ctx.fail({"kind": "latch", "prop": prop, "hist": LATCH_WITNESS.get(prop, {}).get("hist"),
                       "call": LATCH_WITNESS.get(prop, {}).get("call"), "observed": d}, no_failing_input=not ok_)
     dist.update({"readq": rd, "setter": sd, "copy": cd, "history": hd, "timing_s": timing,
-                 "latch_witness_reproduced": latch_now})
+                 "latch_witness_reproduced": latch_now, "alias_witness_reproduced": alias_now,
+                 "arg_alias_sites": [r.site.name for r in facts["alias"]]})
     tb = vlib.KERNEL_TB + [
         "harness/translate_globals.py (static analysis over `ast`, trusted, monitored): enumeration of the sites, access "
         "kinds from syntactic context, call graph by name with a taint pass for singleton receivers, first-access "
